@@ -219,7 +219,17 @@ def check_scope(ctx, case) -> None:
         # exporter object was created before or inside the context
         exporter = early if case.get("exporter_first") else fl.FldExporter(
             separator=sep, headers=headers, input_values=want_in, output_values=want_out)
-        text = exporter.to_string_from_scope(e, v, getattr(fl.FldExporter.ScopeOfValues, scope))
+        if case.get("via_file"):
+            import pathlib
+            import tempfile
+
+            with tempfile.TemporaryDirectory(prefix="pfl_c18_") as tmp:
+                path = pathlib.Path(tmp) / "data.fld"
+                exporter.to_file_from_scope(path, e, v, getattr(fl.FldExporter.ScopeOfValues, scope))
+                text = path.read_text()
+            ctx.cls("via_file")
+        else:
+            text = exporter.to_string_from_scope(e, v, getattr(fl.FldExporter.ScopeOfValues, scope))
     if case.get("exporter_first"):
         ctx.cls("exporter_created_before_decimals_context")
     check_table(ctx, case, text, d, sep, headers, want_in, want_out, spec, cand, exact_rows, "scope")
@@ -300,7 +310,8 @@ def scope_cases(draw, cap):
         v = draw(st.one_of(st.integers(1, min(kmax, 2000)), st.integers(1, min(kmax, 6))))
     want_in, want_out = draw(st.sampled_from([(True, True)] * 4 + [(True, False), (False, True)]))
     pre = [draw(gen.input_row(spec)) for _ in range(draw(st.sampled_from([0, 0, 1, 2])))]
-    return {"spec": spec, "pre": pre, "exporter_first": draw(st.booleans()), "scope": scope, "v": v, "d": draw(st.sampled_from([0, 1, 2, 3, 3, 3, 4, 6, 9])),
+    return {"spec": spec, "pre": pre, "exporter_first": draw(st.booleans()), "via_file": draw(st.integers(0, 4)) == 0,
+            "scope": scope, "v": v, "d": draw(st.sampled_from([0, 1, 2, 3, 3, 3, 4, 6, 9])),
             "sep": draw(st.sampled_from(SEPS)), "headers": draw(st.sampled_from([True, True, False])),
             "inputs": want_in, "outputs": want_out}
 
